@@ -11,10 +11,13 @@ Init == [i |-> 0, viol |-> {}, started |-> FALSE, stopping |-> FALSE,
          prev |-> [p \in MPeers |-> [conn |-> 0, reason |-> 0, ldisc |-> -1]],
          rdy  |-> [c \in CIds |-> FALSE], gone |-> [c \in CIds |-> FALSE],
          dir  |-> [c \in CIds |-> ""], peer |-> [c \in CIds |-> ""], cand |-> [c \in CIds |-> ""],
-         self |-> [p \in MPeers |-> {}]]       \* live connections the node initiated to p
+         self |-> [p \in MPeers |-> {}],       \* live connections the node initiated to p
+         dprd |-> [c \in CIds |-> FALSE],      \* a DPR was received on c while in service
+         lossDpr |-> [p \in MPeers |-> FALSE], \* p's last connection was lost after a DPR
+         lossAt  |-> [p \in MPeers |-> -1]]    \* when p was last seen to lose its connection
 
 IsDpr(m) == m.cmd = "DP" /\ m.req
-Step(M, st) ==
+StepN(M, st) ==
   LET M0  == [M EXCEPT !.i = @ + 1]
       now == st.snap.t
       sn  == st.snap
@@ -31,13 +34,17 @@ Step(M, st) ==
                    (IF M0.peer[c0] \in MPeers /\ sn.peers[M0.peer[c0]].reason # R_DPR THEN {"dpr_reason_not_recorded"} ELSE {})
               ELSE {}
       \* (b) every dial is allowed by the policy
+      \* the monitor's own record of the loss (time, after a DPR or not); a loss in this very step counts from now
+      lostNow(p) == M0.prev[p].conn # 0 /\ (\E j \in 1..Len(out) : out[j].ev = "sock_close" /\ out[j].c = M0.prev[p].conn)
+      lossT(p) == IF lostNow(p) THEN now ELSE M0.lossAt[p]
+      lossD(p) == IF lostNow(p) THEN M0.dprd[M0.prev[p].conn] ELSE M0.lossDpr[p]
       okDial(p) ==
         /\ MCfg.peers[p].persistent
         /\ ~M0.stopping
-        /\ M0.prev[p].conn = 0
+        /\ (M0.prev[p].conn = 0 \/ lostNow(p))
         /\ \/ st.act.a = "start"
-           \/ /\ \E ld \in {M0.prev[p].ldisc, sn.peers[p].ldisc} : ld >= 0 /\ now - ld >= MCfg.peers[p].rwait
-              /\ ~(M0.prev[p].reason = R_DPR /\ ~MCfg.peers[p].always)
+           \/ /\ lossT(p) >= 0 /\ now - lossT(p) >= MCfg.peers[p].rwait
+              /\ ~(lossD(p) /\ ~MCfg.peers[p].always)
       vDial == UNION {(IF Len(dials(p)) > 0 /\ ~MCfg.peers[p].persistent THEN {"non_persistent_peer_dialled"} ELSE {}) \cup
                       (IF Len(dials(p)) > 0 /\ MCfg.peers[p].persistent /\ ~okDial(p) THEN {"dial_against_reconnect_policy"} ELSE {}) \cup
                       (IF Len(dials(p)) > 1 THEN {"dialled_twice_in_one_check"} ELSE {})
@@ -45,10 +52,14 @@ Step(M, st) ==
       \* (c) a due reconnect is not skipped (one wake-up period + 1 s of slack)
       vMiss == {"reconnect_missing" : p \in {q \in MPeers :
                   M0.started /\ ~M0.stopping /\ MCfg.peers[q].persistent /\ MCfg.peers[q].addrs /\
-                  M0.prev[q].conn = 0 /\ sn.peers[q].conn = 0 /\ sn.peers[q].ldisc >= 0 /\ sn.peers[q].ldisc = M0.prev[q].ldisc /\
-                  ~(sn.peers[q].reason = R_DPR /\ ~MCfg.peers[q].always) /\ Len(dials(q)) = 0 /\
+                  M0.prev[q].conn = 0 /\ sn.peers[q].conn = 0 /\ M0.lossAt[q] >= 0 /\
+                  ~(M0.lossDpr[q] /\ ~MCfg.peers[q].always) /\ Len(dials(q)) = 0 /\
                   Len(sn.conns) + Len(sn.closed) < MaxC - 2 /\
-                  now >= sn.peers[q].ldisc + MCfg.peers[q].rwait + MCfg.node.wakeup + 1}}
+                  now >= M0.lossAt[q] + MCfg.peers[q].rwait + MCfg.node.wakeup + 1}}
+      \* the DPR stays recorded as the disconnect reason until the peer connects again
+      vKeep == {"dpr_reason_overwritten" : p \in {q \in MPeers : lossD(q) /\ sn.peers[q].conn = 0 /\ sn.peers[q].reason # R_DPR}}
+      \* a connection that answered a DPR is not put back into service
+      vBack == {"connection_ready_again_after_dpr" : c \in {x \in CIds : M0.dprd[x] /\ CstOf(sn, x) \in READY}}
       \* (d) self-initiated connections per peer
       OnOut(A, e) ==
         CASE e.ev = "accept" -> [A EXCEPT !.dir[e.c] = "in"]
@@ -58,17 +69,25 @@ Step(M, st) ==
           [] OTHER -> A
       M1 == FoldLeft(OnOut, M0, out)
       vTwo == {"two_self_initiated_connections" : p \in {q \in MPeers : Cardinality(M1.self[q]) > 1}}
-      sigs == vDpr \cup vDial \cup vMiss \cup vTwo
+      sigs == vDpr \cup vDial \cup vMiss \cup vTwo \cup vKeep \cup vBack
       succIn(c) == \E j \in 1..Len(out) : out[j].ev = "tx" /\ out[j].c = c /\ out[j].m.cmd = "CE" /\ ~out[j].m.req /\ out[j].m.rc = 2001
       succOut(c) == feed /\ c = c0 /\ M1.dir[c] = "out" /\ \E j \in 1..Len(ms) : ms[j].cmd = "CE" /\ ~ms[j].req /\ ms[j].rc = 2001 /\ ms[j].oh # ""
       cerHost == IF feed /\ \E j \in 1..Len(ms) : ms[j].cmd = "CE" /\ ms[j].req
                  THEN ms[CHOOSE j \in 1..Len(ms) : ms[j].cmd = "CE" /\ ms[j].req /\ \A k \in 1..(j - 1) : ~(ms[k].cmd = "CE" /\ ms[k].req)].oh ELSE ""
       M2 == [M1 EXCEPT !.viol = @ \cup {[sig |-> s, at |-> M0.i] : s \in sigs},
                        !.started = @ \/ st.act.a = "start",
+                       !.dprd = [c \in CIds |-> @[c] \/ (feed /\ c = c0 /\ M0.rdy[c0] /\ ~M0.gone[c0] /\ \E j \in 1..Len(ms) : IsDpr(ms[j]) /\ ms[j].oh # "")],
+                       !.lossAt = [p \in MPeers |-> IF \E j \in 1..Len(out) : out[j].ev = "dial" /\ out[j].p = p /\ out[j].r = "fail" THEN now   \* a failed attempt restarts the wait
+                                                    ELSE IF sn.peers[p].conn # 0 /\ ~lostNow(p) THEN -1
+                                                    ELSE IF lostNow(p) \/ (M0.prev[p].conn # 0 /\ sn.peers[p].conn = 0) THEN now ELSE @[p]],
+                       !.lossDpr = [p \in MPeers |-> IF sn.peers[p].conn # 0 /\ ~lostNow(p) THEN FALSE
+                                                     ELSE IF lostNow(p) THEN M0.dprd[M0.prev[p].conn]
+                                                     ELSE IF M0.prev[p].conn # 0 /\ sn.peers[p].conn = 0 THEN M0.dprd[M0.prev[p].conn] ELSE @[p]],
                        !.prev = [p \in MPeers |-> [conn |-> sn.peers[p].conn, reason |-> sn.peers[p].reason, ldisc |-> sn.peers[p].ldisc]],
                        !.cand = [c \in CIds |-> IF c = c0 /\ @[c] = "" /\ cerHost # "" THEN cerHost ELSE @[c]],
                        !.gone = [c \in CIds |-> @[c] \/ IsClosed(sn, c) \/ (feed /\ c = c0 /\ \E j \in 1..Len(ms) : ms[j].cmd = "DP")
                                                \/ (st.act.a \in {"peer_close", "peer_reset"} /\ st.act.c = c)]]
   IN [M2 EXCEPT !.rdy = [c \in CIds |-> @[c] \/ (M1.dir[c] = "in" /\ succIn(c)) \/ succOut(c)],
                 !.peer = [c \in CIds |-> IF M1.dir[c] = "in" /\ succIn(c) /\ @[c] = "" THEN M2.cand[c] ELSE @[c]]]
+Step(M, s0) == StepN(M, Norm(s0))
 =============================================================================
